@@ -4,7 +4,7 @@ ENGINES = [
     {
         "name": "vloop",
         "path": "vf/engine/vloop.py vf/engine/explore.py vf/engine/netsim.py vf/engine/dbshim.py",
-        "serves_properties": ["C04", "C05", "C06", "C07", "C08", "C09", "C10", "C11", "C19"],
+        "serves_properties": ["C04", "C05", "C06", "C07", "C08", "C09", "C10", "C11", "C12", "C19"],
         "kind_free_text": "stateless model checker for asyncio code: virtual-time BaseEventLoop stepped by hand, "
         "deviation-bounded exhaustive DFS over environment choices (segment delivery, timers, EOF/RST, cancel), "
         "replay of choice prefixes on fresh objects",
@@ -217,6 +217,19 @@ CHECKS = [
         "note": "Trusted: pydantic, argparse, tomllib; pydantic-level default/required/field order; the alphabet tables; declarations are read via AST + "
         "re-evaluation of the Field(...) expressions. Not covered: 'script vecu db' (no acceptable command line), oem (single valid value), dict options, "
         "env spellings of list-of-tuple options, hidden options.",
+    },    {
+        "id": "C12",
+        "engine": "vloop",
+        "level": "model_checking",
+        "technique": "exhaustive enumeration of request histories x recorded ECU models x database shapes: record with the real ECU client + DBHandler against a real RandomUDSServer, replay with the real DBUDSServer, compare reply by reply (record/replay differential under a virtual-time loop, sqlite behind a FIFO shim)",
+        "text": "For seeds 0..3 (thorough 0..15) of a RandomUDSServer with small session/service/identifier spaces, all histories of length <= 2 over a 17-letter "
+        "alphabet and length 3 over 9 (thorough 12, length 4 over 8) letters - DSC to offered/unoffered sessions incl. suppressed, SecurityAccess seed / right "
+        "key / wrong key (derived from the recorded seed), ECUReset, F186, reads/writes/routines, TesterPresent with and without suppress bit - are "
+        "recorded through the real client and DBHandler and replayed from the default state by a real DBUDSServer on the produced file, for four "
+        "database shapes (one run; the history recorded twice; two ECUs selected by ECU name; two ECUs selected by properties). Checked: every reply "
+        "of the replay equals the recorded reply bytes, silence where none was recorded.",
+        "note": "Trusted: sqlite3, FIFO model of aiosqlite, deterministic stand-in for the unseeded seed RNG. The ecu table link is written with plain SQL "
+        "(gallia has no writer for it). Not covered: databases recorded from other ECU implementations, histories longer than the bound.",
     },
 ]
 
